@@ -3,6 +3,7 @@
 package main
 
 import (
+	"encoding/json"
 	"flag"
 	"fmt"
 	"os"
@@ -26,6 +27,16 @@ func main() {
 	case "check":
 		os.Exit(cmdCheck(os.Args[2:]))
 	case "list":
+		if len(os.Args) > 2 && os.Args[2] == "-json" {
+			var out []map[string]any
+			for _, id := range eng.IDs() {
+				p := eng.Lookup(id)
+				out = append(out, map[string]any{"id": id, "title": p.Title, "explanation": p.Explanation, "assumptions": p.Assumptions, "packages": p.Packages, "technique": p.Technique})
+			}
+			b, _ := json.MarshalIndent(out, "", " ")
+			fmt.Println(string(b))
+			return
+		}
 		for _, id := range eng.IDs() {
 			p := eng.Lookup(id)
 			fmt.Printf("%s\t%s\t%s\n", id, p.Title, strings.Join(p.Packages, ","))
